@@ -33,7 +33,7 @@ func dirty() encode.VPEnc {
 	s.AltBuf = append(make([]byte, 0, 16), vp.Bytes("alt", 3)...)
 	if s.Mode == 2 {
 		s.DrawOp = verbs[vp.Choice("pending", len(verbs))]
-		if n := encode.VPNArgs(s.DrawOp); n > 0 {
+		if n := nargs(s.DrawOp); n > 0 {
 			for i := 0; i < n; i++ {
 				s.DrawArgs = append(s.DrawArgs, float32(i)-2)
 			}
@@ -190,4 +190,22 @@ func H_RendererReset() {
 	}
 	vp.Assert(vp.All(sa.CReg == sb.CReg, same, sa.CSel == sb.CSel, sa.NSel == sb.NSel, vp.SameF32(sa.LOD0, sb.LOD0), vp.SameF32(sa.LOD1, sb.LOD1)),
 		"registers, selectors and LOD of a reused Renderer equal a fresh one's")
+}
+
+// nargs is the operand count of a pending drawing verb as the Encoder's API
+// defines it (arcs carry rx, ry, rotation, flags, x, y); -1: not a verb.
+func nargs(op byte) int {
+	switch op {
+	case 'L', 'l', 'T', 't', 'Y', 'y':
+		return 2
+	case 'Q', 'q', 'S', 's':
+		return 4
+	case 'C', 'c', 'A', 'a':
+		return 6
+	case 'H', 'h', 'V', 'v':
+		return 1
+	case 'Z':
+		return 0
+	}
+	return -1
 }
